@@ -85,7 +85,23 @@ def spec_current_time(h, d, t):
     return [("unfiltered-current-time", imp(flt == 0, is_now(h, d, t)))]
 
 
+SO_LIST = LIST(REF("ScheduledOperation"))
+SO_LIST_O = LIST(REF("ScheduledOperation"), "o")
+
+
+def spec_ongoing_entry(h, d, G):
+    """what the CACHE INVARIANT carries about an ongoing_operations entry: a list of objects (what the body computes --
+    exactly the scheduled operations that end after the current time -- is the post-condition of
+    `Dispatcher.ongoing_operations$raw`, spec_ongoing below; it speaks about start times and the contents of every
+    machine list and is therefore not carried around as an opaque atom over a few heap components)"""
+    r = bv("rg")
+    L = (G, "o")
+    return [("result-list", z3.And(G > 0, G < h.alloc, h.len(L) >= 0)),
+            ("elements-are-objects", forall([r], imp(rng(r, 0, h.len(L)), h.at(L, r) > 0), patterns=[h.at(L, r)]))]
+
+
 SPECS = {
+    "ongoing_operations": (SO_LIST_O, spec_ongoing_entry),
     "raw_ready_operations": (OPS, spec_raw_ready),
     "unscheduled_operations": (OPS, spec_unscheduled),
     "scheduled_operations": (OPS, spec_scheduled),
@@ -102,7 +118,8 @@ def _components(h, d, ty, val):
     out = [h.elarr(D.k), h.elarr(D.mnat), h.elarr(D.jnat), h.get("ready_operations_filter", d), D.I, d, D.M,
            h.get("$$cumS", D.sch), h.get("$$cumK", d), h.get("$$cumL", D.I)]
     if ty.kind == "list":
-        out += [h.len(val), h.elarr(val)]
+        L = (val, ty.region) if getattr(ty, "region", None) == "o" else val
+        out += [h.len(L), h.elarr(L)]
     else:
         out.append(val)
     return out
@@ -232,6 +249,9 @@ class _Cached(Contract):
     def modifies(self, c):
         fields = {f: [c["self"]] for f in cache_fields()}
         fields["$oidx"] = "ALL"
+        if self.key == "ongoing_operations":       # its body builds the list in the second region, with a ghost index
+            fields["$$og_idx"] = [c["self"]]
+            return Frame(fields=fields, alloc_lists=True, alloc_olists=True)
         return Frame(fields=fields, alloc_lists=True)
 
     def ensures(self, c):
@@ -304,20 +324,85 @@ type(RAW["scheduled_operations"]).loops = property(lambda self: {
 # the cache invariant in the contracts of the core (C05/C10: observers are notified when the
 # cache has already been cleared, and whatever they query keeps it consistent)
 # ---------------------------------------------------------------------------
-SO_LIST = LIST(REF("ScheduledOperation"))
+# ---------------------------------------------------------------------------
+# ongoing_operations: the body (reversed scan of every machine's list with `break` against the current time)
+# ---------------------------------------------------------------------------
+CT_HAS, CT_VAL = "$cache_has:current_time", "$cache_val:current_time"
+
+
+def spec_ongoing(h, d, G, t):
+    """G lists exactly the scheduled operations that end after t: machine by machine in machine order, latest first"""
+    D = Disp(h, d)
+    r, r2, m, i = bv("rg"), bv("rg2"), bv("mg"), bv("ig")
+    Gref, G = G, (G, "o")       # the list lives in the second list region (see OngoingRaw.alloc_region)
+    x = h.at(G, r)
+    o = D.opx(x)
+    x2 = h.at(G, r2)
+    return [
+        ("result-list", z3.And(Gref > 0, Gref < h.alloc, h.len(G) >= 0)),
+        ("elements-are-scheduled-operations-that-end-after-the-current-time", forall([r], imp(rng(r, 0, h.len(G)), z3.And(
+            rng(D.posm(o), 0, D.M), rng(D.posi(o), 0, D.nS(D.posm(o))), D.x(D.posm(o), D.posi(o)) == x, D.end(x) > t)),
+            patterns=[h.at(G, r)])),
+        ("machine-by-machine-latest-first", forall([r, r2], imp(
+            z3.And(rng(r, 0, h.len(G)), rng(r2, 0, h.len(G)), r < r2),
+            z3.Or(D.posm(o) < D.posm(D.opx(x2)), z3.And(D.posm(o) == D.posm(D.opx(x2)), D.posi(o) > D.posi(D.opx(x2))))),
+            patterns=[z3.MultiPattern(h.at(G, r), h.at(G, r2))])),
+        ("every-operation-that-ends-after-the-current-time-is-listed", forall([m, i], imp(
+            z3.And(rng(m, 0, D.M), rng(i, 0, D.nS(m)), D.end(D.x(m, i)) > t),
+            z3.Exists([r], z3.And(rng(r, 0, h.len(G)), h.at(G, r) == D.x(m, i)))), patterns=[D.x(m, i)])),
+    ]
+
+
+def _og_idx(h, d, x):
+    """ghost: index at which the scheduled operation x was appended to the list being built"""
+    return z3.Select(h.get("$$og_idx", d), x)
 
 
 @register
-class OngoingAbstract(Contract):
-    """assumed contract of the cached query ongoing_operations (its body -- reversed scan with break
-    against the current time -- is decided by the bounded run): returns well-formed scheduled
-    operations and keeps the cache invariant"""
-    name = "Dispatcher.ongoing_operations"
-    abstract = True
-    trusted = True
-    ret = SO_LIST
+class LemmaMachineEndsMonotone(Contract):
+    """ghost lemma (contracts/ghost_src.py), an induction written as a loop"""
+    name = "lemma_machine_ends_monotone"
+    ret = INT
+    pure = True
+    properties = ("C05",)
+    params = {"dispatcher": REF("Dispatcher"), "machine_id": INT, "index": INT}
+
+    def requires(self, c):
+        D = Disp(c.h0, c["dispatcher"])
+        return reach(c.h0, c["dispatcher"]) + [("a-scheduled-position", z3.And(
+            rng(c["machine_id"], 0, D.M), rng(c["index"], 0, D.nS(c["machine_id"]))))]
+
+    def ensures(self, c):
+        D = Disp(c.h0, c["dispatcher"])
+        m, q = c["machine_id"], c["index"]
+        i = bv("il")
+        return [("earlier-operations-on-the-machine-end-no-later", forall([i], imp(
+            rng(i, 0, q + 1), D.end(D.x(m, i)) <= D.end(D.x(m, q))), patterns=[D.x(m, i)]))]
+
+    @property
+    def loops(self):
+        def inv(k):
+            D = Disp(k.h0, k["dispatcher"])
+            m, q, p = k["machine_id"], k["index"], k.v("position")
+            i = bv("il")
+            return [("from-here-on-no-later", z3.And(p >= 0, p <= q, D.end(D.x(m, p)) <= D.end(D.x(m, q)), forall([i], imp(
+                rng(i, p, q + 1), D.end(D.x(m, i)) <= D.end(D.x(m, q))), patterns=[D.x(m, i)])))]
+        return {0: LoopSpec("while position > 0", inv, decreases=lambda k: k.v("position"))}
+
+
+@register
+class OngoingRaw(Contract):
+    """the body of ongoing_operations: returns exactly the scheduled operations whose end is after the value
+    current_time() returned (which is in the cache afterwards), machine by machine, latest first.  (That a CACHED answer
+    is still current is not part of this contract: dispatch / reset clear the whole cache -- proved for every key --
+    and the public contract below stays the assumed one.)"""
+    name = "Dispatcher.ongoing_operations$raw"
+    ret = SO_LIST_O
     params = {"self": REF("Dispatcher")}
-    borrowed = True
+    properties = ("C05",)
+    # the list built here is allocated in the second list region (the regions are a static partition of the list
+    # objects, see DESIGN 0.3): appending to it then cannot, syntactically, touch the schedule's own lists
+    alloc_region = "o"
 
     def requires(self, c):
         return reach(c.h0, c["self"]) + cache_ok(c.h0, c["self"])
@@ -325,15 +410,84 @@ class OngoingAbstract(Contract):
     def modifies(self, c):
         fields = {f: [c["self"]] for f in cache_fields()}
         fields["$oidx"] = "ALL"
-        return Frame(fields=fields, alloc_lists=True)
+        fields["$$og_idx"] = [c["self"]]
+        return Frame(fields=fields, alloc_lists=True, alloc_olists=True)
 
     def ensures(self, c):
-        h, L = c.h, c.result
-        r = bv("r")
-        D = Disp(h, c["self"])
-        return [("scheduled-operations", z3.And(L > 0, L < h.alloc, forall([r], imp(rng(r, 0, h.len(L)), z3.And(
-            h.at(L, r) > 0, h.at(L, r) < h.alloc, D.it.is_op(D.opx(h.at(L, r))))), patterns=[h.at(L, r)])))] \
-            + cache_ok(h, c["self"]) + reach(h, c["self"]) + cache_effect(c.h0, h, c["self"])
+        h, d = c.h, c["self"]
+        return [("the-current-time-is-cached", h.get(CT_HAS, d) != 0),
+                ("result-is-a-new-list", z3.And(c.result >= c.h0.alloc, c.result < h.alloc))] \
+            + spec_ongoing(h, d, c.result, h.get(CT_VAL, d)) + cache_ok(h, d) + cache_effect(c.h0, h, d)
+
+    @property
+    def ghost_after(self):
+        def broke(c, st):
+            # ghost call of the verified lemma at the operation the scan stops at: everything before it on this machine
+            # has ended by then as well
+            h, d = st.heap, c["self"]
+            D = Disp(h, d)
+            m, i = c.eng.loop_stack[-2], c.eng.loop_stack[-1]
+            q = D.nS(m) - 1 - i
+            con = REGISTRY["lemma_machine_ends_monotone"]
+            c.eng.apply_bound(con, {"dispatcher": c.val("self"), "machine_id": Val(INT, m), "index": Val(INT, q)}, st, None)
+
+        def appended(c, st):
+            # ghost: remember where the operation was put (the witness of `is listed`)
+            h, d = st.heap, c["self"]
+            G = (st.env["ongoing_operations"].t, "o")
+            so = st.env["scheduled_operation"].t
+            st.heap = h.put("$$og_idx", d, z3.Store(h.get("$$og_idx", d), so, h.len(G) - 1))
+        return {"is_completed = scheduled_operation.end_time <= current_time": broke,
+                "ongoing_operations.append(scheduled_operation)": appended}
+
+    @property
+    def loops(self):
+        def common(k, m, upto):
+            """facts about the list built so far; `upto` = number of entries of machine m's list already scanned
+            (from the end), None between machines"""
+            h, d = k.h, k["self"]
+            D = Disp(h, d)
+            Gref = k.v("ongoing_operations")
+            G = (Gref, "o")
+            t = k.v("current_time")
+            r, r2, mm, i = bv("rg"), bv("rg2"), bv("mg"), bv("ig")
+            x = h.at(G, r)
+            o = D.opx(x)
+            x2 = h.at(G, r2)
+            before = D.posm(o) < m if upto is None else z3.Or(
+                D.posm(o) < m, z3.And(D.posm(o) == m, D.posi(o) >= D.nS(m) - upto))
+            seen = mm < m if upto is None else z3.Or(mm < m, z3.And(mm == m, i >= D.nS(m) - upto))
+            return [
+                ("list-so-far", z3.And(Gref >= k.h0.alloc, Gref < h.alloc, h.len(G) >= 0, h.get(CT_HAS, d) != 0,
+                                       h.get(CT_VAL, d) == t)),
+                ("elements-so-far", forall([r], imp(rng(r, 0, h.len(G)), z3.And(
+                    rng(D.posm(o), 0, D.M), rng(D.posi(o), 0, D.nS(D.posm(o))), D.x(D.posm(o), D.posi(o)) == x,
+                    D.end(x) > t, before)), patterns=[h.at(G, r)])),
+                ("order-so-far", forall([r, r2], imp(
+                    z3.And(rng(r, 0, h.len(G)), rng(r2, 0, h.len(G)), r < r2),
+                    z3.Or(D.posm(o) < D.posm(D.opx(x2)),
+                          z3.And(D.posm(o) == D.posm(D.opx(x2)), D.posi(o) > D.posi(D.opx(x2))))),
+                    patterns=[z3.MultiPattern(h.at(G, r), h.at(G, r2))])),
+                ("listed-so-far", forall([mm, i], imp(
+                    z3.And(rng(mm, 0, D.M), rng(i, 0, D.nS(mm)), seen, D.end(D.x(mm, i)) > t),
+                    z3.And(rng(_og_idx(h, d, D.x(mm, i)), 0, h.len(G)), h.at(G, _og_idx(h, d, D.x(mm, i))) == D.x(mm, i))),
+                    patterns=[D.x(mm, i)])),
+            ] + reach(h, d) + cache_ok(h, d) + cache_effect(k.h0, h, d)
+
+        def outer(k):
+            return common(k, k.i, None)
+
+        def inner(k):
+            h, d = k.h, k["self"]
+            D = Disp(h, d)
+            m = k.outer[-1]
+            return [("machine", z3.And(rng(m, 0, D.M), k.v("machine_schedule") == D.Sm(m), k.n == D.nS(m)))] \
+                + common(k, m, k.i)
+
+        def mod(k):
+            return Frame(fields={"$$og_idx": [k["self"]]}, olists=[k.v("ongoing_operations")])
+        return {0: LoopSpec("for machine_schedule in self.schedule.schedule", outer, mod),
+                1: LoopSpec("for scheduled_operation in reversed(machine_schedule)", inner, mod)}
 
 
 @register
@@ -354,10 +508,23 @@ class UncompletedRaw(Contract):
     def modifies(self, c):
         fields = {f: [c["self"]] for f in cache_fields()}
         fields["$oidx"] = "ALL"
-        return Frame(fields=fields, alloc_lists=True)
+        fields["$$og_idx"] = [c["self"]]
+        return Frame(fields=fields, alloc_lists=True, alloc_olists=True)
 
     def ensures(self, c):
-        return [("result-is-a-new-list", z3.And(c.result >= c.h0.alloc, c.result < c.h.alloc))] + \
+        h, d, R = c.h, c["self"], c.result
+        U = h.get("$cache_val:unscheduled_operations", d)
+        G = (h.get("$cache_val:ongoing_operations", d), "o")
+        r = bv("rq")
+        return [("result-is-a-new-list", z3.And(c.result >= c.h0.alloc, c.result < c.h.alloc)),
+                # the value: the unscheduled operations followed by the operations of ongoing_operations(), where both
+                # lists are the ones the two queries answer with in this state (they are in the cache afterwards)
+                ("unscheduled-then-ongoing", z3.And(
+                    h.get("$cache_has:unscheduled_operations", d) != 0, h.get("$cache_has:ongoing_operations", d) != 0,
+                    h.len(R) == h.len(U) + h.len(G),
+                    forall([r], imp(rng(r, 0, h.len(U)), h.at(R, r) == h.at(U, r)), patterns=[h.at(R, r), h.at(U, r)]),
+                    forall([r], imp(rng(r, h.len(U), h.len(R)), h.at(R, r) == h.get("operation", h.at(G, r - h.len(U)))),
+                           patterns=[h.at(R, r)])))] + \
             cache_ok(c.h, c["self"]) + cache_effect(c.h0, c.h, c["self"])
 
 
